@@ -1,7 +1,10 @@
 SPECIFICATION MCSpec
 CONSTANTS FallbackMode = "last"
  FailFast = TRUE
+ CancelMode = "coded"
+ WaitMode = "none"
  MaxP = 2
  MaxB = 1
+ MaxDeaf = 0
 INVARIANTS FailOnlyIfAllFail
 CHECK_DEADLOCK FALSE
